@@ -118,7 +118,7 @@ Proof. exact layout_canonical. Qed.
 
 Theorem C10_size : forall T t vs b,
   write_message T t vs = Some b -> blen b <= 65535.
-Proof. exact write_size. Qed.
+Proof. exact (write_size (fun _ => true)). Qed.
 
 Theorem C10_message_roundtrip : forall on_curve T t L vs b,
   lookup_layout T t = Some L -> lay_ok L = true -> t < 65536 ->
